@@ -52,7 +52,8 @@ def world_description(tier):
         f"{3 if tier == 'quick' else 5}x{3 if tier == 'quick' else 5} patterns, every phase) x strands x parent kinds: every "
         f"position, every sub-interval with both ends within 1 of a block boundary (k<=8) / on a block boundary (k>8); the same "
         f"layouts (k<=6) at offsets {worlds.BIG_OFFSETS} on sequence-less parents; single-interval and shifted-twin queries "
-        f"against every scale layout for the relative-location form"
+        f"against every scale layout for the relative-location form; huge: locations of {[h[0] for h in HUGE]} blocks (beyond the "
+        f"interpreter's recursion limit), both strands: point maps and sub-intervals on a ladder of positions"
     )
 
 
@@ -61,10 +62,14 @@ def shards(tier, seed):
     for part in ("unary", "pairs", "feat", "scale"):
         for i in range(NSHARD):
             out.append({"tier": tier, "part": part, "i": i})
+    for i in range(len(HUGE) * 2):
+        out.append({"tier": tier, "part": "huge", "i": i})
     return out
 
 
 GENOME = "ACGTNRYKMSWBDHVacgtnrykmswbdhv"
+# locations with more blocks than the interpreter's default recursion limit (1000): (number of blocks, block length, gap)
+HUGE = ((1100, 1, 1), (2500, 2, 0), (1001, 1, 3))
 
 
 def _parents(N):
@@ -132,6 +137,9 @@ def run_shard(shard):
                 continue
             for strand in "+-":
                 check_feature_wrappers(res, N, bl, strand)
+    elif part == "huge":
+        k, ln_, gap = HUGE[i // 2]
+        check_huge(res, k, ln_, gap, "+-"[i % 2])
     elif part == "scale":
         for idx, (k, bl) in enumerate(worlds.scale_layouts(tier)):
             if idx % NSHARD != i:
@@ -399,6 +407,53 @@ def check_pair(res, N, b1, s1, b2, s2, pk="none"):
                 res.state(("rel", rb, lib.loc_strand(R)))
 
 
+def check_huge(res, k, ln_, gap, strand):
+    """a location with more than a thousand blocks: the point maps at a ladder of positions over the whole length, and
+    sub-intervals (also zero-length ones) anchored there"""
+    bl = tuple((j * (ln_ + gap), j * (ln_ + gap) + ln_) for j in range(k))
+    L = lib.mk_loc(bl, strand)
+    Pm = M.P(bl, strand)
+    ln = len(Pm)
+    base = dict(kind="huge", k=k, block_len=ln_, gap=gap, strand=strand)
+    res.state(("huge", k, ln_, gap, strand))
+    ladder = sorted({0, 1, ln_ , ln // 3, ln // 2, 995 * ln_, 1005 * ln_, ln - ln_ - 1, ln - 2, ln - 1} & set(range(ln)))
+    for r in ladder:
+        o = lib.outcome(L.relative_to_parent_pos, r)
+        res.trans()
+        res.nontriv(("huge-r2p", k, ln_, gap, strand, r))
+        res.note("r2p", "huge")
+        if o[0] != "ok" or o[1] != Pm[r]:
+            res.deviation("relative_to_parent_pos", dict(op="r2p", r=r, **base), o[1], Pm[r], sig="huge-r2p")
+        o = lib.outcome(L.parent_to_relative_pos, Pm[r])
+        res.trans()
+        if o[0] != "ok" or o[1] != r:
+            res.deviation("parent_to_relative_pos", dict(op="p2r", p=Pm[r], **base), o[1], r, sig="huge-p2r")
+    for a in ladder:
+        for b in ladder + [ln]:
+            if b < a:
+                continue
+            for rho in "+-":
+                o = lib.outcome(L.relative_interval_to_parent_location, a, b, lib.STRAND[rho])
+                res.trans()
+                res.note("ri2p", "huge")
+                case = dict(op="ri2p", a=a, b=b, rho=rho, **base)
+                if a == b:
+                    if o[0] == "ok":
+                        if len(o[1]) != 0:
+                            res.deviation("relative_interval_to_parent_location", case, len(o[1]), 0, sig="huge-ri2p-zero")
+                    elif not isinstance(o[2], (ValueError, BioCantorException)):
+                        res.deviation("relative_interval_to_parent_location", case, o[1], "zero-length or documented exception", sig="huge-ri2p-zero-internal")
+                    continue
+                E = Pm[a:b] if rho == "+" else list(reversed(Pm[a:b]))
+                if o[0] != "ok":
+                    res.deviation("relative_interval_to_parent_location", case, o[1], [E[0], E[-1], len(E)], sig="huge-ri2p-raises")
+                    continue
+                O = M.P(lib.loc_blocks(o[1]), lib.loc_strand(o[1]))
+                if O != E or lib.loc_strand(o[1]) != M.strand_rel(strand, rho):
+                    res.deviation("relative_interval_to_parent_location", case, [O[:3], len(O)], [E[:3], len(E)], sig="huge-ri2p")
+    res.sample({"huge": base, "ladder": ladder})
+
+
 def check_scale_pairs(res, N, bl, strand):
     """relative-location form on the scale family: the reference L is a many-block layout; queries are every single
     interval whose ends lie within 1 of a block boundary of L (parent coordinates), and L's own layout shifted by 1"""
@@ -530,6 +585,10 @@ def replay(case):
         check_pair_overlapping_query(res, case["N"], tuple(tuple(b) for b in case["L"]), case["Ls"], tuple(tuple(b) for b in case["Q"]), case["Qs"])
     elif k == "pairparent":
         check_pair_parents(res, 6)
+    elif k == "huge":
+        check_huge(res, case["k"], case["block_len"], case["gap"], case["strand"])
+        devs = [d for d in res.deviations if d["case"].get("op") == case.get("op")]
+        return devs or res.deviations
     elif k == "feat":
         check_feature_wrappers(res, case["N"], tuple(tuple(b) for b in case["blocks"]), case["strand"])
     return res.deviations
